@@ -136,7 +136,7 @@ def parse_op(s):
     if k == "sw":
         return (k, int(w[1]), None if w[2] == "N" else int(w[2]))
     if k == "cp":          # cp A p: pickle round trip of the whole pool; cp <o> c: copy.copy of object o
-        if (w[1] == "A") != (w[2] == "p") or w[2] not in ("p", "c"):
+        if (w[1] == "A") != (w[2] in ("p", "d")) or w[2] not in ("p", "c", "d"):
             raise ValueError(s)
         return (k, None if w[1] == "A" else int(w[1]), w[2])
     raise ValueError(s)
@@ -295,7 +295,10 @@ class World:
         import pickle
         self.env.restoring = True
         try:
-            if which is None:
+            if which is None and how == "d":
+                new = copy.deepcopy(self.objs)          # HasTraits.__deepcopy__ = clone_traits(copy='deep')
+                todo = range(len(self.objs))
+            elif which is None:
                 new = pickle.loads(pickle.dumps(self.objs, protocol=pickle.HIGHEST_PROTOCOL))
                 todo = range(len(self.objs))
             else:
@@ -550,7 +553,7 @@ def random_history(rng, shape, maxops=12, build_first=None):
             ops.append("sw %d %s" % (o, "N" if t is None else t))
         elif r < 0.83 and shape not in CMP_SHAPES:
             # the history continues on a copy: pickle round trip of the whole pool / copy.copy of one object
-            ops.append("cp A p" if rng.random() < 0.5 else "cp %d c" % o)
+            ops.append(rng.choice(["cp A p", "cp A d"]) if rng.random() < 0.6 else "cp %d c" % o)
         elif r < 0.97:
             ops.append("rd %d %s" % (o, rng.choice(nm)))
         else:
@@ -602,7 +605,7 @@ def rejected_history(rng, shape):
         j = rng.randrange(n)
         nm = [b.name for b in cls[objs[j]].attrs]
         if r < 0.15 and shape not in CMP_SHAPES:
-            ops.append("cp A p" if rng.random() < 0.5 else "cp %d c" % j)
+            ops.append(rng.choice(["cp A p", "cp A d"]) if rng.random() < 0.6 else "cp %d c" % j)
         elif r < 0.4:
             ops.append("st %d %s %d" % (j, rng.choice(nm), rng.choice([0, 3, 7, 9, -1, 12])))
         elif r < 0.6:
@@ -641,7 +644,7 @@ def original_value_history(rng, shape):
         elif r < 0.7:
             ops.append("dl %d %s" % (j, rng.choice(nm)))
         elif r < 0.8:
-            ops.append("cp A p" if rng.random() < 0.5 else "cp %d c" % j)
+            ops.append(rng.choice(["cp A p", "cp A d"]) if rng.random() < 0.6 else "cp %d c" % j)
         else:
             ops.append("rd %d %s" % (j, rng.choice(nm)))
     return "dg|%s|%s|oshift,oshift|%s" % (classes, objects, ";".join(ops))
